@@ -35,7 +35,8 @@ def _pg():
 
 
 MOLS = ['CC', 'CCC', 'C=C', 'CC=C', 'C#C', 'CO', 'CCO', 'C=O', 'CC=O', 'C[CH2]', '[CH2][CH2]', '[CH3]', 'C[O]', 'O', 'C', 'OO', 'C1CC1', 'CC(C)C',
-        'C=CC=C', 'OCCO', '[CH2]C=C', 'C[CH]C', 'CC#C', 'COC', 'O=C=O', '[CH2]O', 'C=C[CH2]', '[CH]=C', '[CH2]C[CH2]', 'CC(=O)O']
+        'C=CC=C', 'OCCO', '[CH2]C=C', 'C[CH]C', 'CC#C', 'COC', 'O=C=O', '[CH2]O', 'C=C[CH2]', '[CH]=C', '[CH2]C[CH2]', 'CC(=O)O',
+        'c1ccccc1', 'Cc1ccccc1', 'c1ccoc1', 'Oc1ccccc1']
 
 
 DIRADICALS = ['[CH2]C[CH2]', '[CH2]CC[CH2]', '[CH2]O[CH2]', '[CH2]C(C)[CH2]', '[CH2]C[O]', '[CH]C[CH2]', '[CH2]C=C[CH2]']
@@ -93,6 +94,8 @@ def same_bond_case(draw):
         if o > 1:
             opts.append('dec')
         opts.append('set')
+        if not bond_edits:
+            opts.append('reform')         # break the bond and form it again with another order
         kind = draw(st.sampled_from(opts))
         if kind == 'inc':
             bond_edits.append(['inc-bond', draw(st.sampled_from([0, 1])), None])
@@ -104,6 +107,14 @@ def same_bond_case(draw):
             o -= 1
             r = [x + 1 for x in r]
             rad_edits += [['inc-rad', 0], ['inc-rad', 1]]
+        elif kind == 'reform':
+            new = draw(st.sampled_from([k for k in (1, 2, 3) if k - o <= min(r)]))
+            names = {1: 'single', 2: 'double', 3: 'triple'}
+            bond_edits += [['break', 0, 1, names[o]], ['form', 0, 1, names[new] if new != 1 or draw(st.booleans()) else None]]
+            d = new - o
+            r = [x - d for x in r]
+            rad_edits += [['dec-rad' if d > 0 else 'inc-rad', a] for _ in range(abs(d)) for a in (0, 1)]
+            o = new
         else:
             new = draw(st.sampled_from([k for k in (1, 2, 3) if k - o <= min(r)]))
             bond_edits.append(['modify-bond', 0, 1, {1: 'single', 2: 'double', 3: 'triple'}[new]])
@@ -128,6 +139,9 @@ def rule_case(draw):
         return draw(same_bond_case())
     smi = draw(st.one_of(st.sampled_from(MOLS), molgen.gas(5, stereo=False), molgen.radical(4)))
     mol = Chem.MolFromSmiles(smi)
+    kek = draw(st.booleans())
+    if kek and mol is not None:
+        Chem.Kekulize(mol, clearAromaticFlags=True)       # the molecule in Kekule form (explicit single/double ring bonds)
     directed = draw(st.integers(0, 2)) > 0 and mol is not None
     frag = None
     if directed:
@@ -145,14 +159,16 @@ def rule_case(draw):
         frag['molprefix'] = []
     r = draw(ruleast.rule(frag=frag))
     return dict(kind='rule', rule=r, layout=draw(ringast.layout()), smiles=smi, directed=directed,
-                then=draw(st.lists(st.sampled_from(MOLS), max_size=2)))
+                then=draw(st.lists(st.sampled_from(MOLS), max_size=2)), kekule=kek)
 
 
-def run_and_compare(ctx, q, rule, text, smi, note=''):
+def run_and_compare(ctx, q, rule, text, smi, note='', kekule=False):
     """run an already-read rule object on one molecule and compare with the reference edit; returns number of matches or None"""
     mol = Chem.MolFromSmiles(smi)
     if mol is None:
         return None
+    if kekule:
+        Chem.Kekulize(mol, clearAromaticFlags=True)
     mh = Chem.AddHs(mol)
     mm = ringref.MolModel(mh)
     g0 = rxnref.graph_of(mh)
@@ -214,6 +230,10 @@ def check_rule(ctx, case):
     mol = Chem.MolFromSmiles(smi)
     if mol is None:
         return
+    if case.get('kekule'):
+        Chem.Kekulize(mol, clearAromaticFlags=True)
+        if any(a.GetIsAromatic() for a in Chem.MolFromSmiles(smi).GetAtoms()):
+            ctx.event('input:aromatic-molecule-in-Kekule-form')
     mh = Chem.AddHs(mol)
     mm = ringref.MolModel(mh)
     g0 = rxnref.graph_of(mh)
@@ -260,7 +280,7 @@ def check_rule(ctx, case):
         return
     # one rule object, several molecules in a row (and the first one again): earlier runs must not leak into later ones
     for other in list(case.get('then') or []) + [smi]:
-        run_and_compare(ctx, q, rule, text, other, note='(after running the same rule object on %s)' % smi)
+        run_and_compare(ctx, q, rule, text, other, note='(after running the same rule object on %s)' % smi, kekule=bool(case.get('kekule')))
         ctx.event('rule-object-reused')
 
 
